@@ -1023,17 +1023,29 @@ fn apply_transfer_function(
             }
         }
         TransferFunction::Hlg => {
-            let [r, g, b, ..] = channels else { panic!() };
-            let r = &mut **r;
-            let g = &mut **g;
-            let b = &mut **b;
             let luminances = hdr_params.luminances;
             let intensity_target = hdr_params.intensity_target;
+            match channels {
+                [r, g, b, ..] => {
+                    let r = &mut **r;
+                    let g = &mut **g;
+                    let b = &mut **b;
 
-            tf::hlg_inverse_oo([r, g, b], luminances, intensity_target);
-            tf::linear_to_hlg(r);
-            tf::linear_to_hlg(g);
-            tf::linear_to_hlg(b);
+                    tf::hlg_inverse_oo([r, g, b], luminances, intensity_target);
+                    tf::linear_to_hlg(r);
+                    tf::linear_to_hlg(g);
+                    tf::linear_to_hlg(b);
+                }
+                [y, ..] => {
+                    // Grayscale: the sample is R = G = B.
+                    let y = &mut **y;
+                    let mut g = y.to_vec();
+                    let mut b = y.to_vec();
+                    tf::hlg_inverse_oo([y, &mut g, &mut b], luminances, intensity_target);
+                    tf::linear_to_hlg(y);
+                }
+                [] => {}
+            }
         }
     }
 }
@@ -1087,17 +1099,29 @@ fn apply_inverse_transfer_function(
             }
         }
         TransferFunction::Hlg => {
-            let [r, g, b, ..] = channels else { panic!() };
-            let r = &mut **r;
-            let g = &mut **g;
-            let b = &mut **b;
             let luminances = hdr_params.luminances;
             let intensity_target = hdr_params.intensity_target;
+            match channels {
+                [r, g, b, ..] => {
+                    let r = &mut **r;
+                    let g = &mut **g;
+                    let b = &mut **b;
 
-            tf::hlg_to_linear(r);
-            tf::hlg_to_linear(g);
-            tf::hlg_to_linear(b);
-            tf::hlg_oo([r, g, b], luminances, intensity_target);
+                    tf::hlg_to_linear(r);
+                    tf::hlg_to_linear(g);
+                    tf::hlg_to_linear(b);
+                    tf::hlg_oo([r, g, b], luminances, intensity_target);
+                }
+                [y, ..] => {
+                    // Grayscale: the sample is R = G = B.
+                    let y = &mut **y;
+                    tf::hlg_to_linear(y);
+                    let mut g = y.to_vec();
+                    let mut b = y.to_vec();
+                    tf::hlg_oo([y, &mut g, &mut b], luminances, intensity_target);
+                }
+                [] => {}
+            }
         }
     }
 }
